@@ -184,40 +184,52 @@ type sink struct {
 	call  ssa.CallInstruction
 	bytes ssa.Value
 	what  string
+	host  *ssa.Function // mainCmd.Run, or the function the output stage was moved to
 }
 
 func sinksOfRun(r *an.Run, m *runModel) []sink {
 	var out []sink
 	preview := r.P.Func(mainP, "mainCmd.preview")
-	for _, c := range an.Calls(m.run) {
-		if !m.loop.Loop.Blocks[c.Block()] {
-			continue
-		}
-		if bs, ok := isStdoutWrite(c); ok && an.Unwrap(bs) != m.content {
-			out = append(out, sink{c, bs, "print-only write to cmd.Stdout"})
-			continue
-		}
-		sc := an.StaticCallee(c)
-		if sc != nil && sc == preview {
-			out = append(out, sink{c, c.Common().Args[3], "modified side of the --diff preview"})
-			continue
-		}
-		// any call that (transitively, inside the module) reaches a file-system mutator, with a []byte argument
-		if sc != nil && an.InModule(sc) && reachesMutator(r, sc) {
-			for _, a := range c.Common().Args {
-				if an.ShortType(a.Type()) == "[]byte" {
-					out = append(out, sink{c, a, "bytes written to the target file by " + short(sc)})
+	var scan func(host *ssa.Function, within map[*ssa.BasicBlock]bool, depth int)
+	scan = func(host *ssa.Function, within map[*ssa.BasicBlock]bool, depth int) {
+		for _, c := range an.Calls(host) {
+			if within != nil && !within[c.Block()] {
+				continue
+			}
+			if bs, ok := isStdoutWrite(c); ok && an.Unwrap(bs) != m.content && liftIn(m.run, bs) != m.content {
+				out = append(out, sink{c, bs, "print-only write to cmd.Stdout", host})
+				continue
+			}
+			sc := an.StaticCallee(c)
+			if sc != nil && sc == preview {
+				out = append(out, sink{c, c.Common().Args[3], "modified side of the --diff preview", host})
+				continue
+			}
+			// any call that (transitively, inside the module) reaches a file-system mutator, with a []byte argument
+			if sc != nil && an.InModule(sc) && reachesMutator(r, sc) {
+				hasBytes := false
+				for _, a := range c.Common().Args {
+					if an.ShortType(a.Type()) == "[]byte" {
+						out = append(out, sink{c, a, "bytes written to the target file by " + short(sc), host})
+						hasBytes = true
+					}
+				}
+				// the output stage as a function of its own: it is handed the file (not bytes) and prints,
+				// validates and emits inside — its sinks are the sinks of the iteration
+				if !hasBytes && depth < 2 && sc.Blocks != nil && an.FuncPkgPath(sc) == an.FuncPkgPath(m.run) && sc != m.run {
+					scan(sc, nil, depth+1)
 				}
 			}
-		}
-		if fsMutators[an.CalleeName(c)] {
-			for _, a := range c.Common().Args {
-				if an.ShortType(a.Type()) == "[]byte" {
-					out = append(out, sink{c, a, "bytes written by " + an.CalleeName(c)})
+			if fsMutators[an.CalleeName(c)] {
+				for _, a := range c.Common().Args {
+					if an.ShortType(a.Type()) == "[]byte" {
+						out = append(out, sink{c, a, "bytes written by " + an.CalleeName(c), host})
+					}
 				}
 			}
 		}
 	}
+	scan(m.run, m.loop.Loop.Blocks, 0)
 	return out
 }
 
@@ -283,6 +295,13 @@ func c07ErrorEdgesSkipSinks(r *an.Run, m *runModel) {
 						for _, ret := range an.Returns(g) {
 							if reach[ret.Block()] && !an.ReturnsFailure(ret.Block()) {
 								good = false
+							}
+						}
+						// and no sink that lives in the helper is reached on the way
+						for _, s := range sinks {
+							if s.host == g && reach[s.call.Block()] && s.call.Block() != icall.Block() {
+								good = false
+								r.Fail(ikey+"|sink", s.call.Pos(), "after %s fails, %s still reaches a sink (%s)", an.CalleeName(ic), short(g), s.what)
 							}
 						}
 					}
